@@ -15,6 +15,7 @@ type msgSpec struct {
 	ext     string
 	kid     byte
 	alg     int64
+	clean   bool // generated with no deliberate rule violation
 }
 
 // wire rendering with encoder choices; returns root tree
@@ -74,7 +75,13 @@ func tagged(kind string, root *W) *W {
 
 // a message signed (transparent scheme) by the harness's own reference implementation
 func genSignedMsg(r *rng, c *genCfg, kind string) (*msgSpec, *W) {
-	m := &msgSpec{kind: kind, h: randHeaders(r, c), ext: randExt(r), kid: byte(1 + r.intn(3))}
+	clean := r.chance(1, 2)
+	if clean {
+		cc := *c
+		cc.invalid = 0
+		c = &cc
+	}
+	m := &msgSpec{kind: kind, h: randHeaders(r, c), ext: randExt(r), kid: byte(1 + r.intn(3)), clean: clean}
 	m.payload = randPayload(r, false)
 	alg, ok := algOf(&m.h)
 	if !ok {
@@ -197,8 +204,8 @@ func generate(family string, n int, seed uint64, out *bufio.Writer) {
 			}
 			v := fmt.Sprintf("T:%d:%d", m.alg, m.kid)
 			sfx := ""
-			if stream == "valid" && ext == m.ext {
-				if _, ok := algOf(&m.h); ok || len(unhex(ext)) > 0 {
+			if stream == "valid" && ext == m.ext && m.clean {
+				if _, ok := algOf(&m.h); ok || (len(unhex(ext)) > 0 && !hasAlgEntry(&m.h)) {
 					sfx = " !wf"
 				}
 			} else {
